@@ -97,10 +97,124 @@ def run_case(c):
     return t
 
 
+# ------------------------------------------------------------------ end to end: the connection's SASL loop
+import asyncio  # noqa: E402
+
+from aiokafka.conn import AIOKafkaConnection  # noqa: E402
+from aiokafka.protocol.admin import SaslAuthenticateRequest, SaslHandShakeRequest  # noqa: E402
+
+
+class _DoneLoop:
+    """run_in_executor that runs inline and returns an awaitable (what the handshake loop awaits)."""
+
+    def run_in_executor(self, executor, fn, *args):
+        fut = asyncio.get_running_loop().create_future()
+        try:
+            fut.set_result(fn(*args))
+        except BaseException as e:  # noqa: BLE001
+            fut.set_exception(e)
+        return fut
+
+
+async def run_e2e(c, handshake_version, client_nonce):
+    """The real AIOKafkaConnection._do_sasl_handshake against the same RFC server and the same tampering;
+    the transport is replaced by the server function.  Returns "Authenticated" or ["Raised", class]."""
+    mech = c["mech"]
+    user, pw = c["user"], c["password"]
+    salt = bytes(c["salt"])
+    it = c["iterations"]
+    stored, skey = srv.derive(mech, c["server_password"].encode("utf-8"), salt, it)
+    server = srv.ScramServer(mech, {user.encode("utf-8"): (salt, it, stored, skey)},
+                             c["snonce"].encode("ascii"))
+    st = {"stage": 0, "cf": None, "sf": None, "replies": []}
+
+    def respond(msg):
+        msg = bytes(msg)
+        st["stage"] += 1
+        if st["stage"] == 1:
+            st["cf"] = msg
+            sf = server.handle_client_first(msg)
+            for op in c.get("tamper1", []):
+                sf = srv.tamper(sf, op)
+            st["sf"] = sf
+            st["replies"].append(list(sf))
+            return sf
+        if st["stage"] == 2:
+            if c.get("final_mode", "honest") == "honest":
+                sfin = server.handle_client_final(msg)
+            else:
+                k = msg.rfind(b",p=")
+                a = st["cf"][3:] + b"," + st["sf"] + b"," + (msg[:k] if k >= 0 else msg)
+                sfin = b"v=" + base64.b64encode(srv.hmac_(mech, skey, a))
+            for op in c.get("tamper2", []):
+                sfin = srv.tamper(sfin, op)
+            st["replies"].append(list(sfin))
+            return sfin
+        raise AssertionError("client sent a third token")
+
+    conn = AIOKafkaConnection("broker", 9092, security_protocol="SASL_PLAINTEXT", sasl_mechanism=mech,
+                              sasl_plain_username=user, sasl_plain_password=pw)
+    conn._loop = _DoneLoop()
+    closed = []
+    conn.close = lambda *a, **k: closed.append(1)
+
+    class R:
+        pass
+
+    async def send(request, expect_response=True):
+        r = R()
+        if isinstance(request, SaslHandShakeRequest):
+            r.error_code = 0
+            r.enabled_mechanisms = [mech]
+            r.API_VERSION = handshake_version
+            return r
+        if isinstance(request, SaslAuthenticateRequest):
+            r.error_code = 0
+            r.error_message = None
+            r.sasl_auth_bytes = respond(request._payload)
+            return r
+        raise AssertionError(type(request).__name__)
+
+    async def send_token(payload, expect_response):
+        return respond(payload)
+    conn.send = send
+    conn._send_sasl_token = send_token
+    real_scram = conn.authenticator_scram
+
+    def scram():
+        a = real_scram()
+        a._nonce = client_nonce          # the same client nonce as the step-level run
+        return a
+    conn.authenticator_scram = scram
+    try:
+        await conn._do_sasl_handshake()
+        return {"outcome": "Authenticated", "tokens": st["stage"], "replies": st["replies"]}
+    except srv.ProtocolError as e:
+        return {"outcome": "ServerRejected", "tokens": st["stage"], "detail": str(e)}
+    except AssertionError:
+        raise
+    except BaseException as e:  # noqa: BLE001
+        return {"outcome": ["Raised", type(e).__name__], "tokens": st["stage"], "replies": st["replies"]}
+
+
 def main():
     req = json.load(sys.stdin)
     out = []
     for c in req["cases"]:
+        try:
+            t = run_case(c)
+            if req.get("e2e", True) and "client_nonce" in t:
+                t["e2e"] = {}
+                for hv in (1, 0):
+                    try:
+                        t["e2e"][str(hv)] = asyncio.run(run_e2e(c, hv, t["client_nonce"]))
+                    except Exception as e:  # noqa: BLE001
+                        t["e2e"][str(hv)] = {"driver_error": f"{type(e).__name__}: {e}"}
+            out.append(t)
+            continue
+        except Exception as e:  # noqa: BLE001  (driver problem, not a client exception)
+            out.append({"driver_error": f"{type(e).__name__}: {e}"})
+            continue
         try:
             out.append(run_case(c))
         except Exception as e:  # noqa: BLE001  (driver problem, not a client exception)
